@@ -681,6 +681,11 @@ func compileBlock(context *funcContext, chunk []ast.Stmt) { // {{{
 } // }}}
 
 func compileStmt(context *funcContext, stmt ast.Stmt, isLastStmt bool) { // {{{
+	context.exprDepth++
+	defer leaveExpr(context)
+	if context.exprDepth > maxExprDepth {
+		raiseCompileError(context, sline(stmt), "chunk has too many syntax levels")
+	}
 	switch st := stmt.(type) {
 	case *ast.AssignStmt:
 		compileAssignStmt(context, st)
@@ -971,6 +976,11 @@ func compileIfStmt(context *funcContext, stmt *ast.IfStmt) { // {{{
 } // }}}
 
 func compileBranchCondition(context *funcContext, reg int, expr ast.Expr, thenlabel, elselabel int, hasnextcond bool) { // {{{
+	context.exprDepth++
+	defer leaveExpr(context)
+	if context.exprDepth > maxExprDepth {
+		raiseCompileError(context, sline(expr), "chunk has too many syntax levels")
+	}
 	// TODO folding constants?
 	code := context.Code
 	flip := 0
@@ -1648,6 +1658,11 @@ func compileLogicalOpExpr(context *funcContext, reg int, expr *ast.LogicalOpExpr
 } // }}}
 
 func compileLogicalOpExprAux(context *funcContext, reg int, expr ast.Expr, ec *expcontext, thenlabel, elselabel int, hasnextcond bool, lb *lblabels) { // {{{
+	context.exprDepth++
+	defer leaveExpr(context)
+	if context.exprDepth > maxExprDepth {
+		raiseCompileError(context, sline(expr), "chunk has too many syntax levels")
+	}
 	// TODO folding constants?
 	code := context.Code
 	flip := 0
